@@ -39,7 +39,7 @@ META = {
             "sigma ladder x random direction x translation magnitude, shuffled into mixed-regime batches; random: every block "
             "drawn independently (ladder / dense band around eps / around sqrt(eps) / log-uniform 1e-30..1e-3 / uniform(0,pi) / "
             "uniform(pi,4pi); |sigma| <= 8; |tau| 0..1e3 and occasionally to 1e12), random batch shape of rank 0..3 and empty "
-            "batches, four ways of building/calling (x.Exp(), pp.Exp(x), pp.<alg>(data), non-contiguous input); all four types, "
+            "batches, five ways of building/calling (x.Exp(), pp.Exp(x), pp.<alg>(data), non-contiguous input, requires_grad input); all four types, "
             "float32 and float64. A case is one algebra element; non-trivial = not the zero element; distinct by (type, dtype, "
             "branch bit and quantised |phi|, branch bit, sign and quantised |sigma|, quantised |tau|)",
     "trusted": ["mpmath.expm at 60 digits (oracle on the real code: sampled stream, confirmation of every disagreement, search, replay)",
@@ -228,11 +228,13 @@ def run_impl(name, dtype, rows64, shape, api=0):
         big = torch.zeros(tuple(shape) + (2 * a,), dtype=D)
         big[..., ::2] = data
         data = big[..., ::2]
+    if api == 4:     # an input that requires grad (forward values must be the same)
+        data = data.clone().requires_grad_(True)
     if api == 2:     # wrapper constructors of utils.py
         x = getattr(P, U.ALG[name])(data)
     else:
         x = P.LieTensor(data, ltype=alg_ltype(name))
-    before = data.clone()
+    before = data.detach().clone()
     X = P.Exp(x) if api == 1 else x.Exp()
     if type(X).__name__ != "LieTensor" or X.ltype != U.ltype(name):
         problems.append(f"type: Exp({U.ALG[name]}) returned {type(X).__name__} of ltype {getattr(X, 'ltype', None)}")
@@ -244,9 +246,9 @@ def run_impl(name, dtype, rows64, shape, api=0):
     if tuple(M.shape) != tuple(shape) + (n, n) or M.dtype != D:
         problems.append(f"type: matrix() returned shape {tuple(M.shape)} dtype {M.dtype}")
         return None, None, problems, None
-    if not torch.equal(torch.Tensor.as_subclass(x, torch.Tensor), before):
+    if not torch.equal(torch.Tensor.as_subclass(x, torch.Tensor).detach(), before):
         problems.append("purity: Exp modified its argument")
-    return T.double().reshape(-1, g), M.double().reshape(-1, n * n), problems, x
+    return T.detach().double().reshape(-1, g), M.detach().double().reshape(-1, n * n), problems, x
 
 
 def check_batch(ctx: Ctx, stream, name, dtype, rows, shape, api, lines, metas, extra=None):
@@ -263,10 +265,10 @@ def check_batch(ctx: Ctx, stream, name, dtype, rows, shape, api, lines, metas, e
             # second call on the same object and algebra-level matrix(): bitwise the same answer
             P = U.pp()
             X2 = x.Exp()
-            if not torch.equal(X2.tensor().double().reshape(-1, U.GDIM[name]), T):
+            if not torch.equal(X2.tensor().detach().double().reshape(-1, U.GDIM[name]), T):
                 problems.append("repeat: a second Exp() on the same tensor gives a different result")
             M2 = x.matrix()
-            if not torch.equal(M2.double().reshape(-1, U.MATN[name] ** 2), M):
+            if not torch.equal(M2.detach().double().reshape(-1, U.MATN[name] ** 2), M):
                 problems.append("repeat: x.matrix() differs from x.Exp().matrix()")
             ctx.count("repeat-calls")
     except Exception as ex:  # the real code must not raise on a valid algebra element
@@ -398,7 +400,7 @@ def run_random(ctx: Ctx, n_batches, lines, metas):
             shape = (rng.randint(2, 12),)
         n = int(math.prod(shape))
         rows = [gen_item(rng, name, e) for _ in range(n)]
-        check_batch(ctx, "random", name, dtype, rows, shape, rng.randrange(4), lines, metas)
+        check_batch(ctx, "random", name, dtype, rows, shape, rng.randrange(5), lines, metas)
 
 
 def run_repeat(ctx: Ctx, n_rounds, lines, metas):
@@ -475,7 +477,7 @@ def corpus_batches():
                 items.append(out)
             for i in range(0, len(items), 23):
                 rows = items[i:i + 23]
-                yield name, dtype, rows, (len(rows),), (i // 23) % 4
+                yield name, dtype, rows, (len(rows),), (i // 23) % 5
             # degenerate shapes
             z = [0.0] * U.ADIM[name]
             one = items[len(items) // 2]
